@@ -165,6 +165,7 @@ pub struct Sim {
     pub now: u64,
     pub reqs: Vec<Req>,
     pub tids: HashSet<[u8; 12]>,
+    pub ind_tids: Vec<[u8; 12]>,
     pub st_agreed: Option<bool>,
     pub lt_state: LtState,
     pub lt_sess: Option<LtSess>,
@@ -234,6 +235,7 @@ impl Sim {
             now: 0,
             reqs: Vec::new(),
             tids: HashSet::new(),
+            ind_tids: Vec::new(),
             st_agreed: match cfg.mech {
                 Mech::ShortTerm(a) => a,
                 _ => None,
